@@ -31,8 +31,8 @@ OPS = {"add": operator.add, "sub": operator.sub, "mul": operator.mul, "div": ope
 OPSYM = {"add": "+", "sub": "-", "mul": "*", "div": "/", "pow": "**"}
 
 # mechanism the specification prescribes (repaired) and the mechanism of the pinned classes (design canary)
-MECH = dict(MInitUseCache=True, MClearByOperand=True, MPickleSlots=True, MCacheKeyTime=True)
-PINNED = dict(MInitUseCache=False, MClearByOperand=False, MPickleSlots=False, MCacheKeyTime=True)
+MECH = dict(MInitUseCache=True, MClearByOperand=True, MPickleSlots=True, MEqFlat=False, MReuseEqual=False, MCacheKeyTime=True)
+PINNED = dict(MECH, MInitUseCache=False, MClearByOperand=False, MPickleSlots=False)
 INVARIANTS = ["TypeOK", "EvalIsPointwise", "TimeDepIffSomeOperand", "EqIsStructural", "NestingTotal",
               "ClearCacheTotal", "PickleRoundTrip", "SolverAcceptsComposite"]
 
